@@ -157,7 +157,10 @@ func (s *State) JudgeAdmin(a Admin) AdminVerdict {
 
 // Env is a step of the environment around orbiter.
 type Env struct {
-	Kind    string `json:"kind"` // deposit | reescrow | ftf_pause | ftf_unpause | blacklist | unblacklist | burn_limit
+	// deposit | reescrow | ftf_pause | ftf_unpause | blacklist | unblacklist | burn_limit |
+	// cctp_pause_burn | cctp_unpause_burn | cctp_pause_msgs | cctp_unpause_msgs | hyp_unenroll | hyp_enroll
+	// (the Hyperlane steps use Denom for the token and Amount for the domain)
+	Kind    string `json:"kind"`
 	User    string `json:"user,omitempty"`
 	Target  string `json:"target,omitempty"`
 	Channel int    `json:"channel,omitempty"`
@@ -313,6 +316,20 @@ func (m *Machine) doEnv(e Env) world.TxResult {
 		return m.W.Tx(m.Ctx, &cctptypes.MsgSetMaxBurnAmountPerMessage{
 			From: world.Addr("cctp-tokencontroller").String(), LocalToken: world.Uusdc, Amount: amt,
 		})
+	case "cctp_pause_burn":
+		return m.W.Tx(m.Ctx, &cctptypes.MsgPauseBurningAndMinting{From: world.Addr("cctp-pauser").String()})
+	case "cctp_unpause_burn":
+		return m.W.Tx(m.Ctx, &cctptypes.MsgUnpauseBurningAndMinting{From: world.Addr("cctp-pauser").String()})
+	case "cctp_pause_msgs":
+		return m.W.Tx(m.Ctx, &cctptypes.MsgPauseSendingAndReceivingMessages{From: world.Addr("cctp-pauser").String()})
+	case "cctp_unpause_msgs":
+		return m.W.Tx(m.Ctx, &cctptypes.MsgUnpauseSendingAndReceivingMessages{From: world.Addr("cctp-pauser").String()})
+	case "hyp_unenroll", "hyp_enroll":
+		id, ok := m.W.HypToken[e.Denom]
+		if !ok || !amt.IsUint64() {
+			return world.TxResult{Err: fmt.Errorf("no such Hyperlane token or domain")}
+		}
+		return m.W.HypRouter(m.Ctx, id, uint32(amt.Uint64()), e.Kind == "hyp_enroll")
 	}
 	return world.TxResult{Err: fmt.Errorf("unknown env step %q", e.Kind)}
 }
